@@ -176,4 +176,105 @@ theorem dispatch_pushpop_reg (c : Model.X86.Ctx) (row : Row) (k0 : RegKind) (i0 
   rcases henc with h | h <;> rcases hk with h' | h' <;> subst h' <;>
     simp [dispatch, h, sig3, Op.kind, Op.id, Op.rmSize, Op.isSReg, rtypeOf, kindSize]
 
+/-! ### `mov reg, imm` (B8+r iw|id|iq): `EmitX86OpReg` with an immediate -/
+
+theorem emitX86OpReg_bytesI (opcode r : BitVec 32) (imm : BitVec 64) (n : Nat) (hopc : opcode &&& 0xF7801C07#32 = 0#32) (hr : r < 16#32) :
+    emitX86OpReg opcode 0#32 r imm n =
+      .ok (ppBytes ((opcode >>> 21) &&& 3#32).toNat ++ (rexOfB opcode r).toList ++ legacyEscape ((opcode >>> 8) &&& 3#32).toNat ++
+           (opcode + (r &&& 7#32)).truncate 8 :: emitImmediate imm n) := by
+  have hrex : ¬ (extractRex opcode 0#32 ||| (r >>> 3)) > 0x80#32 := by simp only [extractRex]; bv_decide
+  have e1 : ((opcode + (r &&& 7#32)) >>> 21) &&& 3#32 = (opcode >>> 21) &&& 3#32 := by bv_decide
+  have e2 : ((opcode + (r &&& 7#32)) >>> 8) &&& 3#32 = (opcode >>> 8) &&& 3#32 := by bv_decide
+  simp only [emitX86OpReg, emitRex, hrex, ↓reduceIte, bind, Except.bind, pure, Except.pure,
+    emitPP_eq (opcode + (r &&& 7#32)) (by bv_decide), emitMM_eq (opcode + (r &&& 7#32)) (by bv_decide), rexOfB, e1, e2]
+  split <;> simp
+
+/-- `EmitX86OpReg` with an immediate: shape [register in the opcode byte, imm] -/
+theorem opRegImm_formOk (ctx : Spec.X86.Ctx) (rule : Rule) (opcode r : BitVec 32) (k : RegKind) (f0 f3 : FormOp) (v imm1 : BitVec 64) (isz : Nat)
+    (hm64 : ctx.mode64 = true) (hmode : (rule.modes &&& 2 != 0) = true) (hopc : opcode &&& 0xF7801C07#32 = 0#32) (hr : r < 16#32)
+    (hs : rule.space = 0) (hpp8 : rule.pp &&& 8 = 0)
+    (h66 : (rule.pp &&& 1 != 0 || rule.osz == 16) = (((opcode >>> 21) &&& 3#32).toNat == 1))
+    (hF3 : (rule.pp &&& 2 != 0) = (((opcode >>> 21) &&& 3#32).toNat == 2)) (hF2 : (rule.pp &&& 4 != 0) = (((opcode >>> 21) &&& 3#32).toNat == 3))
+    (hri : rule.ri = true) (ha67 : rule.a67 = false) (hmk : rule.modKind = 0)
+    (himm : rule.immBytes = isz) (hrel : rule.relBytes = 0) (hmoff : rule.moff = false)
+    (hop : rule.opcode = (opcode &&& 0xFF#32).toNat) (hmap : rule.map = ((opcode >>> 8) &&& 3#32).toNat)
+    (hw : wWant rule = 2 ∨ wWant rule = ((opcode >>> 27) &&& 1#32).toNat)
+    (hsafe : (opcode >>> 8) &&& 3#32 = 0#32 → ∀ r7 : BitVec 32, r7 < 8#32 →
+      isLegacyPrefix ((opcode + r7).truncate 8) false = false ∧ ((opcode + r7).truncate 8 : BitVec 8) >>> 4 ≠ 4#8)
+    (hk : PlainKind k) (hf0 : f0.role = .opc)
+    (hic : ∀ p : Parsed, p.imm = emitImmediate imm1 isz → allOk (opConds ctx rule p 0 f3 (.imm v)).1 = true)
+    (hal : alignOps rule.oszEff rule.ops [.reg k r.toNat, .imm v] = some [(f0, some (.reg k r.toNat)), (f3, some (.imm v))]) :
+    ∃ bytes, emitX86OpReg opcode 0#32 r imm1 isz = .ok bytes ∧ formOk ctx rule [.reg k r.toNat, .imm v] {} bytes = true := by
+  refine ⟨_, emitX86OpReg_bytesI opcode r imm1 isz hopc hr, ?_⟩
+  have hpplt : ((opcode >>> 21) &&& 3#32).toNat < 4 := by
+    have : (opcode >>> 21) &&& 3#32 < 4#32 := by bv_decide
+    simpa [BitVec.lt_def] using this
+  have hmaplt : rule.map < 4 := by
+    rw [hmap]
+    have : (opcode >>> 8) &&& 3#32 < 4#32 := by bv_decide
+    simpa [BitVec.lt_def] using this
+  have hrexv : ∀ b, rexOfB opcode r = some b → b >>> 4 = 4#8 ∧ (b.getLsbD 3 = opcode.getLsbD 27) ∧ (b.getLsbD 0 = r.getLsbD 3) := by
+    intro b hb'
+    unfold rexOfB at hb'
+    dsimp only at hb'
+    split at hb'
+    · injection hb' with hb'; subst hb'; simp only [extractRex] at *; refine ⟨?_, ?_, ?_⟩ <;> bv_decide
+    · contradiction
+  have hnone : rexOfB opcode r = none → opcode.getLsbD 27 = false ∧ r.getLsbD 3 = false := by
+    intro hn
+    unfold rexOfB at hn
+    dsimp only at hn
+    split at hn
+    · contradiction
+    · rename_i hz; simp only [extractRex] at hz; refine ⟨?_, ?_⟩ <;> bv_decide
+  have hrexH : ∀ b, rexOfB opcode r = some b → b.toNat / 16 = 4 ∧ isLegacyPrefix b false = false := by
+    intro b hb'
+    obtain ⟨h4, -⟩ := hrexv b hb'
+    refine ⟨toNat_div16_eq4 b h4, ?_⟩
+    rw [Bool.eq_false_iff]
+    intro hh
+    simp only [isLegacyPrefix, Bool.or_eq_true, beq_iff_eq, Bool.false_and, Bool.or_false] at hh
+    bv_decide
+  have hoH : rule.map = 0 → isLegacyPrefix ((opcode + (r &&& 7#32)).truncate 8) false = false ∧
+      (rexOfB opcode r = none → ((opcode + (r &&& 7#32)).truncate 8 : BitVec 8).toNat / 16 ≠ 4) := by
+    intro hm0
+    have hm0' : (opcode >>> 8) &&& 3#32 = 0#32 := by
+      apply BitVec.eq_of_toNat_eq; rw [← hmap, hm0]; rfl
+    obtain ⟨s1, s2⟩ := hsafe hm0' (r &&& 7#32) (by bv_decide)
+    refine ⟨s1, fun _ h => s2 ?_⟩
+    apply BitVec.eq_of_toNat_eq
+    simpa [BitVec.toNat_ushiftRight, Nat.shiftRight_eq_div_pow] using h
+  have hparse := parse_legacy_op_imm rule _ (rexOfB opcode r) ((opcode + (r &&& 7#32)).truncate 8) (emitImmediate imm1 isz) hpplt hs hpp8 hmaplt hmk hrexH hoH
+    (by rw [(imm_le_exact imm1 isz).1, himm, hrel]; rfl) hmoff
+  rw [hmap] at hparse
+  refine leg_opreg_imm_formOk ctx rule _ _ _ k f0 f3 _ v (by simpa [hm64] using hmode) hs hpp8 h66 hF3 hF2 hpplt hri ha67 hk hf0 (hic _ rfl) hal (by rw [hm64]; exact hparse)
+    rfl rfl rfl ?_ ?_ ?_
+  · show (((opcode + (r &&& 7#32)).truncate 8 : BitVec 8) &&& 0xF8#8).toNat = rule.opcode
+    rw [hop]; exact toNat_eq_of_zext _ _ (by omega) (by bv_decide)
+  · rcases hw with h | h
+    · exact Or.inl h
+    · right
+      have hc : (opcode >>> 27) &&& 1#32 = 0#32 ∨ (opcode >>> 27) &&& 1#32 = 1#32 := by bv_decide
+      simp only [rexBit]
+      cases hr' : rexOfB opcode r with
+      | none =>
+        obtain ⟨w0, -⟩ := hnone hr'
+        rcases hc with hc | hc
+        · rw [h, hc]; simp
+        · exfalso; bv_decide
+      | some b =>
+        obtain ⟨-, wb, -⟩ := hrexv b hr'
+        simp only [bit]
+        rcases hc with hc | hc
+        · rw [h, hc, wb]; simp; bv_decide
+        · rw [h, hc, wb]; simp; bv_decide
+  · simp only [rexBit]
+    cases hr' : rexOfB opcode r with
+    | none =>
+      obtain ⟨-, b0⟩ := hnone hr'
+      exact regNum_eq _ _ _ r (by simp; bv_decide)
+    | some b =>
+      obtain ⟨-, -, bb⟩ := hrexv b hr'
+      exact regNum_eq _ _ _ r (by simp only [bit, bb]; simp; bv_decide)
+
 end AsmjitVerif.Props.C01
